@@ -18,7 +18,7 @@ from fractions import Fraction
 from engine import dump, traces
 
 LEVEL = 'model_checking'
-PARTS = ['scope', 'pow', 'chain', 'bin']
+PARTS = ['scope', 'lit', 'pow', 'chain', 'bin']
 OPFN = {'+': operator.add, '-': operator.sub, '*': operator.mul, '/': operator.truediv, '^': operator.pow}
 IOPFN = {'+': operator.iadd, '-': operator.isub, '*': operator.imul, '/': operator.itruediv, '^': operator.ipow}
 RNAME = {'+': '__radd__', '-': '__rsub__', '*': '__rmul__', '/': '__rtruediv__', '^': '__rpow__'}
@@ -387,6 +387,33 @@ def scope_graders():
             'en_inv': MatrixGrader(answers=value_text(SCOPE_INV), user_constants={'A': A}, max_array_dim=2, samples=1)}
 
 
+# ---------------------------------------------------------------- array literals (behind the property; drift only)
+def lit_text(t, counter):
+    if t['k'] == 'num':
+        counter[0] += 1
+        return str(counter[0])
+    return '[' + ','.join(lit_text(x, counter) for x in t['xs']) + ']'
+
+
+def lit_observe(t):
+    """-> ('sh', shape list) | ('ragged',) | ('other', text)"""
+    import numpy as np
+    from mitxgraders.helpers.calc.expressions import evaluator
+    from mitxgraders.helpers.calc.math_array import MathArray
+    counter = [0]
+    text = lit_text(t, counter)
+    try:
+        v = evaluator(text)[0]
+    except Exception as e:
+        o = classify_exc(e)
+        return (('ragged',) if o['k'] == 'err' else ('other', o['what'])), text
+    if not isinstance(v, MathArray):
+        return ('other', 'result is %s' % type(v).__name__), text
+    if [int(round(z.real)) for z in v.reshape(-1).astype(complex)] != list(range(1, counter[0] + 1)):
+        return ('other', 'entries reordered'), text
+    return ('sh', list(v.shape)), text
+
+
 # ---------------------------------------------------------------- spec -> code replay (runs in worker processes)
 def case_of_state(c):
     """normalise a dumped case: kind pow -> bin"""
@@ -422,6 +449,16 @@ def replay_states(states, extra):
                                   'allowed': st['out'][i], 'observed': obs,
                                   'class': 'negative-power-switch-leaks' if st['out'][i] == 'value' else 'negative-power-not-refused'})
                     break
+            continue
+        if c['kind'] == 'lit':
+            out['n'] += 1
+            out['evals'] += 1
+            obs, text = lit_observe(c['t'])
+            want = ('sh', list(st['out']['sh'])) if st['out']['k'] == 'sh' else ('ragged',)
+            out['keys'].add(('lit', want[0], len(want[1]) if len(want) > 1 else 0))
+            if obs != want:
+                k = 'array literal %s: model says %s, code gives %s' % (text, want, obs)
+                out['drift'][k] = out['drift'].get(k, 0) + 1
             continue
         allowed = st['out']
         if allowed['k'] == 'nopred':
@@ -791,6 +828,7 @@ def run(ctx):
             '{-1,0,1,2} and {0,1,i}' if ctx.quick else '{-2..2} and {0,1,i,1+i,-i}', 8 if ctx.quick else 12),
         'chains': 'length 2-4 over scalars, vectors, square matrices (n=%s), one optional group' % (
             '2' if ctx.quick else '2,3'),
+        'literal_trees': 'bracket trees of depth <= 3 with <= 3 items per bracket (rectangular and ragged)',
         'scope_histories': 'all call histories of length <= %d over 6 call kinds' % (3 if ctx.quick else 4),
         'random_records': n, 'random_shapes': 'up to 6 x 6, tensors up to 3x3x3, chains of 3-6 operands, exponents -4..4'}
     ctx.assumptions += [
